@@ -159,6 +159,8 @@ type Run struct {
 	tasks    []*Task
 	byGID    map[uint64]*Task
 	armed    map[string]bool
+	delays   map[string]time.Duration
+	sleepers atomic.Int32
 	start    time.Time
 	roleLogs map[string][]string
 	cleanups []func()
@@ -302,6 +304,17 @@ func (r *Run) Arm(sites ...string) {
 	r.mu.Unlock()
 }
 
+// SetDelay makes every passage of a library-owned goroutine through site take d of simulated time.
+// Delays are fixed per site before the goroutines exist, so no choice is drawn inside them.
+func (r *Run) SetDelay(site string, d time.Duration) {
+	r.mu.Lock()
+	if r.delays == nil {
+		r.delays = map[string]time.Duration{}
+	}
+	r.delays[site] = d
+	r.mu.Unlock()
+}
+
 func (r *Run) Disarm(sites ...string) {
 	r.mu.Lock()
 	for _, s := range sites {
@@ -320,6 +333,18 @@ func (r *Run) DisarmAll() {
 // if it is a harness task and the site is armed; anything else passes through.
 func (r *Run) Hook(site string) {
 	r.mu.Lock()
+	if d, ok := r.delays[site]; ok {
+		// a goroutine the library started itself (never a harness task): it waits d of simulated time, which
+		// orders it exactly against every other goroutine (the fake clock only moves when all are at rest)
+		r.Stats.Hooks[site]++
+		r.mu.Unlock()
+		if d > 0 {
+			r.sleepers.Add(1)
+			time.Sleep(d)
+			r.sleepers.Add(-1)
+		}
+		return
+	}
 	if !r.armed[site] {
 		r.mu.Unlock()
 		return
@@ -424,7 +449,20 @@ func (r *Run) Failed() bool { return r.viol != nil }
 // with the real clock) and may still call Fail.
 func (r *Run) After(f func()) { r.afters = append(r.afters, f) }
 
-func syncWait() { synctest.Wait() }
+// syncWait returns once every other goroutine of the bubble is at rest. A goroutine of the library that is being
+// held for a few simulated nanoseconds at an instrumented point (SetDelay) is not at rest: the clock is moved
+// forward one nanosecond at a time until none is left, so the delays decide order and nothing else.
+func syncWait() {
+	synctest.Wait()
+	r := currentRun.Load()
+	if r == nil {
+		return
+	}
+	for i := 0; r.sleepers.Load() > 0 && i < 100000; i++ {
+		time.Sleep(time.Nanosecond)
+		synctest.Wait()
+	}
+}
 
 // Cleanup registers a function run after the bubble (outside of it).
 func (r *Run) Cleanup(f func()) { r.cleanups = append(r.cleanups, f) }
